@@ -194,7 +194,10 @@ func short(s string) string {
 
 // Sample picks at most n mutants, evenly spaced over the deterministic order, rotated by seed.
 func Sample(ms []Mutant, n int, seed int) []Mutant {
-	if len(ms) <= n || n <= 0 {
+	if n <= 0 {
+		return nil
+	}
+	if len(ms) <= n {
 		return ms
 	}
 	var out []Mutant
